@@ -546,3 +546,23 @@ Theorem prefix_pts_text_count_line : forall cnt numval ct ls n,
     (firstn (PrefixText.boundary (PrefixText.pts_file ct ls) 0 0) (PrefixText.render (PrefixText.pts_file ct ls))) = None.
 Proof. exact PrefixText.pts_text_count_only. Qed.
 Print Assumptions prefix_pts_text_count_line.
+
+(* ---------------------------------------------------------------- cuts that are not at the end of a token *)
+(* How a byte cut of an ASCII line maps to the token prefixes the theorems above speak about:
+   (1) right after a separator -- any run of blanks / tabs after the last complete token: strings.Fields yields the
+       same tokens, i.e. the SAME token prefix as the cut before the separator (so prefix_pts, prefix_pts_text,
+       prefix_ply_ascii_* apply unchanged: a line that ends in a blank has no empty last column);
+   (2) inside a number -- the line splits into the complete tokens and the shorter spelling p that is left; the
+       token prefix then holds p as a token of its own.  If p does not read as a number ("-", "1e", "1e-") the
+       reader must reject (Check.C14: PBad); if it does, the prefix holds that value (PVal) and may be a complete
+       valid file of its own -- the only accepted case, judged by no_placeholderb on the tokens present. *)
+Theorem ascii_trailing_separator_same_tokens : forall toks seps,
+  Forall PrefixText.tok_ok toks -> Forall (fun b => PrefixText.is_space b = true) seps ->
+  PrefixText.fields_of (PrefixText.render_line toks ++ seps) = toks.
+Proof. exact PrefixText.fields_trailing_spaces. Qed.
+Print Assumptions ascii_trailing_separator_same_tokens.
+Theorem ascii_partial_number_is_a_token : forall toks p,
+  Forall PrefixText.tok_ok toks -> PrefixText.tok_ok p ->
+  PrefixText.fields_of (PrefixText.render_line (toks ++ [p])) = toks ++ [p].
+Proof. exact PrefixText.fields_partial_token. Qed.
+Print Assumptions ascii_partial_number_is_a_token.
